@@ -232,6 +232,7 @@ type ProxyOpts struct {
 	Valid        time.Duration
 	Grace        time.Duration
 	GraceZero    bool // the grace period is switched off (SESSION_TTL_GRACEPERIOD=0s)
+	ValidZero    bool // every request revalidates (SESSION_TTL_VALID=0s)
 	// RealClientTimeouts: keep the back-channel client exactly as the package builds it (5 s total), for
 	// the scenario about an authenticator that never answers
 	RealClientTimeouts bool
@@ -356,6 +357,9 @@ func NewProxyEnv(o ProxyOpts) (*ProxyEnv, error) {
 	}
 	if o.GraceZero {
 		env["SESSION_TTL_GRACEPERIOD"] = "0s"
+	}
+	if o.ValidZero {
+		env["SESSION_TTL_VALID"] = "0s"
 	}
 	if o.Cluster != "" {
 		env["UPSTREAM_CLUSTER"] = o.Cluster
